@@ -66,6 +66,7 @@ namespace vf
     }
     inline void note(const std::string& s) { std::printf("@@{\"t\":\"note\",\"v\":\"%s\"}\n", jesc(s).c_str()); }
     inline void cap(const std::string& s) { std::printf("@@{\"t\":\"cap\",\"v\":\"%s\"}\n", jesc(s).c_str()); }
+    inline bool& finished() { static bool f = false; return f; }
     inline void done()
     {
         reporter& r = reporter::get();
@@ -75,6 +76,7 @@ namespace vf
             if (kv.second > 1) std::printf("@@{\"t\":\"note\",\"v\":\"%s occurred %d times\"}\n", jesc(kv.first).c_str(), kv.second);
         std::printf("@@{\"t\":\"done\"}\n");
         std::fflush(stdout);
+        finished() = true;
     }
 
     template <class T>
@@ -95,10 +97,28 @@ namespace vf
         std::fflush(stdout);
         _exit(3);
     }
+    // a sanitizer report that cannot be recovered from (UBSan in abort mode, a fatal ASan error) ends in the runtime's Die():
+    // the death callback attributes it exactly like a fatal signal
+    inline void on_sanitizer_death()
+    {
+        static volatile int in = 0;
+        if (finished() || in++) return;
+        if (crash_hook()) crash_hook()("a fatal sanitizer report (the sanitizer runtime aborted the process)");
+        reporter& r = reporter::get();
+        for (auto& kv : r.stats) std::printf("@@{\"t\":\"stat\",\"k\":\"%s\",\"v\":%lld}\n", jesc(kv.first).c_str(), kv.second);
+        std::printf("@@{\"t\":\"crashed\",\"v\":\"sanitizer abort\"}\n");
+        std::fflush(stdout);
+        _exit(3);
+    }
+}
+extern "C" __attribute__((weak)) void __sanitizer_set_death_callback(void (*callback)(void));
+namespace vf
+{
     inline void install_crash_handler()
     {
         int sigs[] = {SIGSEGV, SIGABRT, SIGFPE, SIGBUS, SIGILL};
         for (int s : sigs) std::signal(s, on_fatal_signal);
+        if (&__sanitizer_set_death_callback) __sanitizer_set_death_callback(on_sanitizer_death);
     }
 
     // ---- sanitizer as oracle: ASan runs in recover mode, the hook sets a flag ----
